@@ -301,6 +301,60 @@ static void check_set(const std::string& name, const std::vector<T>& g, std::uin
     }
 }
 
+// long string components: values of one length that differ in a single character (first, middle,
+// second to last, last) must hash differently, alone and as a member of a pair / tuple / record,
+// and swapping the members of a pair of such strings must change the hash
+static void check_long_strings()
+{
+    using nitro::lang::hash;
+    long pairs = 0, coll_plain = 0, coll_tuple = 0, coll_pair = 0, coll_struct = 0, swapped_same = 0, eq_bad = 0;
+    for (std::size_t len : { 15u, 16u, 17u, 31u, 32u, 33u, 63u, 64u, 65u, 255u, 256u, 257u, 300u, 1024u, 5000u, 70000u })
+    {
+        std::vector<std::string> g;
+        std::string base(len, 'k');
+        for (std::size_t i = 0; i < len; ++i)
+            base[i] = static_cast<char>('a' + (i * 7) % 23);
+        for (std::size_t at : { std::size_t(0), len / 2, len - 2, len - 1 })
+            for (char c : { 'A', 'B', 'C' })
+            {
+                std::string v = base;
+                v[at] = c;
+                g.push_back(v);
+            }
+        for (std::size_t i = 0; i < g.size(); ++i)
+        {
+            std::string copy(g[i].c_str(), g[i].size());
+            if (hash(copy) != hash(g[i]) || hash(std::make_tuple(1, copy)) != hash(std::make_tuple(1, g[i])))
+                ++eq_bad;
+            for (std::size_t j = i + 1; j < g.size(); ++j)
+            {
+                if (g[i] == g[j])
+                    continue;
+                ++pairs;
+                coll_plain += hash(g[i]) == hash(g[j]);
+                coll_tuple += hash(std::make_tuple(7, g[i], 'x')) == hash(std::make_tuple(7, g[j], 'x'));
+                coll_pair += hash(std::make_pair(g[i], 3)) == hash(std::make_pair(g[j], 3));
+                coll_struct += hash(B(g[i], 0.5, 1)) == hash(B(g[j], 0.5, 1));
+                swapped_same += hash(std::make_pair(g[i], g[j])) == hash(std::make_pair(g[j], g[i]));
+            }
+        }
+    }
+    stats["long-string-pairs"] = pairs;
+    stats["long-string-collisions"] = coll_plain + coll_tuple + coll_pair + coll_struct;
+    if (eq_bad)
+        viol("long-string:equal-values-hash-differently", std::to_string(eq_bad));
+    if (coll_plain * 100 > pairs)
+        viol("long-string:hash-ignores-characters", std::to_string(coll_plain) + " collisions among " + std::to_string(pairs) + " pairs of equal length differing in one character");
+    if (coll_tuple * 100 > pairs)
+        viol("tuple<int,long-string,char>:hash-ignores-component-1", std::to_string(coll_tuple) + " of " + std::to_string(pairs));
+    if (coll_pair * 100 > pairs)
+        viol("pair<long-string,int>:hash-ignores-component-0", std::to_string(coll_pair) + " of " + std::to_string(pairs));
+    if (coll_struct * 100 > pairs)
+        viol("struct<long-string,double,int>:hash-ignores-component-0", std::to_string(coll_struct) + " of " + std::to_string(pairs));
+    if (swapped_same * 100 > pairs)
+        viol("pair<long-string,long-string>:hash-ignores-order", std::to_string(swapped_same) + " of " + std::to_string(pairs));
+}
+
 int main(int argc, char** argv)
 {
     int scale = argc > 1 ? std::atoi(argv[1]) : 1;
@@ -331,6 +385,7 @@ int main(int argc, char** argv)
                       },
                       3);
     check_set<nitro::lang::unordered_set<A>>("unordered_set<struct<int8,int,longlong>>", ga, seed);
+    check_long_strings();
 
     // --- B: string / double (signed zeros) / int
     std::vector<B> gb;
